@@ -34,3 +34,32 @@ def canary_compose(h):
 
 
 CONTRACTS["canary.U.compose_assumptions_without_producer_guarantees"]["canary"] = ["canary.no_need_for_guarantees"]
+
+
+@contract("canary.S.multiply_keeps_the_constant", [], ["pacti.terms.polyhedra.polyhedra:PolyhedralTerm.multiply"], "S")
+def canary_multiply(h):
+    from contracts.slib import S
+
+    s = S(h)
+    a = s.term("a", ["x", "y"])
+    k = s.real("k")
+    out = h.call(h.method(a, "multiply"), [k])
+    if out.kind == "return":
+        h.ensure("canary.constant_unchanged", s.const(out.value) == s.const(a))
+
+
+CONTRACTS["canary.S.multiply_keeps_the_constant"]["canary"] = ["canary.constant_unchanged"]
+
+
+@contract("canary.H.reduce_polytope_keeps_every_row", [], ["pacti.terms.polyhedra.polyhedra:PolyhedralTermList.reduce_polytope"], "H")
+def canary_reduce(h):
+    from contracts.h_lp import HEnv
+
+    e = HEnv(h)
+    a, b = e.matrix("a", 2)
+    out = h.call(e.fn("reduce_polytope"), [a, b])
+    if out.kind == "return":
+        h.check("canary.all_rows_kept", len(out.value[0].rows) == 2, "a row was dropped")
+
+
+CONTRACTS["canary.H.reduce_polytope_keeps_every_row"]["canary"] = ["canary.all_rows_kept"]
